@@ -244,6 +244,28 @@ class Registry:
                 out += self.call_named(eng, n, args, kwargs, s, node)
             return out
         # ---- attribute calls
+        if (isinstance(f, ast.Attribute) and f.attr in ("update", "add") and isinstance(f.value, ast.Call) and isinstance(f.value.func, ast.Attribute)
+                and f.value.func.attr == "setdefault" and len(f.value.args) == 2 and len(node.args) == 1 and not node.keywords):
+            # d.setdefault(k, set()).update(xs) / .add(x):  d[k] = (d[k] if k in d else {}) | xs   (the default is a fresh empty set)
+            dexpr = f.value.func.value
+            out = []
+            for s, (dv, kv, dflt, xs) in eng.ev_seq([dexpr, f.value.args[0], f.value.args[1], node.args[0]], st):
+                if dv.t[0] != "dict" or dv.x is None or dv.t[2][0] not in ("set", "bag") or dflt.t[0] not in ("emptyset",):
+                    raise OutOfSubset("setdefault(...).update(...) on an unsupported receiver / default")
+                vt = dv.t[2]
+                key = to_term(coerce(kv, dv.t[1]))
+                cur = z3.If(z3.Select(dv.x[0], key), z3.Select(dv.x[1], key), z3.K(sort_of(vt[1]), FALSE))
+                x = z3.Const(fresh_name("e"), sort_of(vt[1]))
+                if f.attr == "add":
+                    newset = z3.Store(cur, to_term(coerce(xs, vt[1])), TRUE)
+                else:
+                    m = self.as_membership(eng, xs) if xs.t[0] != "emptyset" else V(vt, z3.K(sort_of(vt[1]), FALSE))
+                    newset = eng.mkset(s, [x], z3.Or(z3.Select(cur, x), z3.Select(m.x, x)))
+                newd = V(dv.t, (z3.Store(dv.x[0], key, TRUE), z3.Store(dv.x[1], key, newset)))
+                from .builtins_model import _store
+                _store(eng, s, dexpr, newd, dv)
+                out.append((s, VNONE))
+            return out
         if isinstance(f, ast.Attribute):
             # super().__init__(...)
             if isinstance(f.value, ast.Call) and isinstance(f.value.func, ast.Name) and f.value.func.id == "super":
@@ -609,6 +631,11 @@ class Registry:
             raise OutOfSubset("dict comprehension over concrete list")
         kv = items["elt"]
         k, v = kv.x
+        if k.t[0] == "opt":
+            # keys of Optional type: the comprehension's own filter must exclude None (proved as an obligation), then the key is the inner value
+            eng.oblige(st, z3.ForAll(items["consts"], z3.Implies(items["member"], z3.Not(k.x[0]))), "pre@call",
+                       f"dict-comprehension key is never None@{getattr(node, 'lineno', 0)}", getattr(node, "lineno", 0))
+            k = k.x[1]
         kt, vt = k.t, v.t
         # functional only if keys determine values: emit that as an obligation-free requirement -> refuse otherwise
         dom_y = z3.Const(fresh_name("k"), sort_of(kt))
